@@ -454,6 +454,25 @@ class EOM:
         # also getting the LTE results
         wallVelocityLTE = self.hydrodynamics.findvwLTE()
 
+        if wallPressureResultsMax is None and not (
+            self.successWallPressure and self.successTemperatureProfile
+        ):
+            # The pressure at wallVelocityMax was computed above and did not
+            # converge, so its sign cannot be trusted: neither to conclude that the
+            # wall runs away nor as the upper end of the bracket of the root search.
+            results.setWallVelocities(None, None, wallVelocityLTE)
+            results.setWallParams(wallParamsMax)
+            results.setHydroResults(hydroResultsMax)
+            results.setBoltzmannBackground(boltzmannBackgroundMax)
+            results.setBoltzmannResults(boltzmannResultsMax)
+            results.setSuccessState(
+                False,
+                ESolutionType.ERROR,
+                "The pressure at the maximum wall velocity has not converged, "
+                "cannot conclude that the wall runs away nor bracket the wall velocity.",
+            )
+            return results
+
         # The pressure peak is not enough to stop the wall: no deflagration or
         # hybrid solution
         if pressureMax < 0:
@@ -464,18 +483,6 @@ class EOM:
             results.setHydroResults(hydroResultsMax)
             results.setBoltzmannBackground(boltzmannBackgroundMax)
             results.setBoltzmannResults(boltzmannResultsMax)
-            if wallPressureResultsMax is None and not (
-                self.successWallPressure and self.successTemperatureProfile
-            ):
-                # The pressure at wallVelocityMax was computed above and did not
-                # converge, so its sign cannot be trusted.
-                results.setSuccessState(
-                    False,
-                    ESolutionType.ERROR,
-                    "The pressure at the maximum wall velocity has not converged, "
-                    "cannot conclude that the wall runs away.",
-                )
-                return results
             results.setSuccessState(
                 True,
                 ESolutionType.RUNAWAY,
